@@ -35,8 +35,10 @@ class Prop(PropBase):
 
     def cases(self, rng, tier):
         quick = tier == "quick"
-        for _ in range(450 if quick else 12000):
+        for i in range(450 if quick else 12000):
             N = rng.choice([1, 2, 3, 5, 8, 16, 17, 31, 64])
+            if i < (3 if quick else 60):
+                N = rng.choice([16384, 65536, 100003 if not quick else 65536])     # long signals: phasor accuracy
             cls = rng.choice(["BasebandSignal", "DualPolarizationSignal"])
             sshape = list(sigs.sample_shape(cls, rng.choice([1, 2, 3]))) + rng.choice([[], [], [2]])
             if rng.random() < 0.35:
@@ -53,7 +55,10 @@ class Prop(PropBase):
                     return float(rng.choice([0, 1, -1, 2, -3, N - 1, -(N - 1), N, -N, N + 2, -(2 * N), 0.5, -0.5]))
                 return round(rng.uniform(-N - 2, N + 2), 3)
             bins = [val() for _ in range(n)]
-            yield {"op": "fshift", "cls": cls, "N": N, "dtype": rng.choice(["c8", "c16"]), "sshape": sshape, "shp": shp,
+            if N > 1000:
+                sshape, shp = [1] if cls == "BasebandSignal" else [1, 2], []
+                bins = [rng.choice([N / 4, -N / 3.7, N / 2.5])]
+            yield {"op": "fshift", "cls": cls, "N": N, "dtype": rng.choice(["c8", "c16"]) if N <= 1000 else "c8", "sshape": sshape, "shp": shp,
                    "bins": bins, "rate": rng.choice([1000.0, 1e6, 16e6]), "unit": rng.choice(["Hz", "kHz"]),
                    "seed": rng.randrange(1 << 30)}
 
